@@ -47,7 +47,26 @@ def run(tier, v, wd, replay=None):
     res = run_vectors(v, wd, repo, "./control/", "TestVerifC09HitPath", hfile, tags="verif,dae_stub_ebpf", timeout=900, outname="out-hit.json")
     if (res.get("counters") or {}).get("c09hit_undecided", 0) > len(open(hfile).readlines()) // 2:
         raise vlib.Infra("the packet-path replay could not be driven: %s" % (res.get("notes") or [])[:3])
-    v.assumptions += ["packet path: real loopback UDP sockets; the point between patching and sending is the trace message sendPkt logs (a logging hook parks the goroutine there)",
+    # the forwarder cache: use counting, retirement after errors, the idle janitor (FwdIdle.tla)
+    r = vlib.tlc(wd, "FwdIdle", "FwdIdle_mc.cfg", timeout=900)
+    v.add_tlc(r)
+    if r.violated:
+        raise vlib.Infra("FwdIdle.tla violates %s in the model" % r.violated)
+    r = vlib.tlc(wd, "FwdIdle", "FwdIdle_code.cfg", timeout=900, workers=1)
+    if r.violated != "NeverInUse":
+        raise vlib.Infra("FwdIdle.tla with a janitor that closes forwarders itself no longer violates NeverInUse: vacuous model")
+    ffile = os.path.join(wd.path, "c09fwd.ndjson")
+    r = vlib.tlc(wd, "FwdIdle", "FwdIdle_gen.cfg", emit_to=ffile + ".all", timeout=900)
+    v.add_tlc(r)
+    keep = 4 if tier == "quick" else 1
+    with open(ffile, "w") as out:
+        for i, line in enumerate(sorted(open(ffile + ".all").read().splitlines())):
+            if (i + vlib.seed()) % keep == 0:
+                out.write(line + "\n")
+    os.remove(ffile + ".all")
+    res = run_vectors(v, wd, repo, "./control/", "TestVerifC09FwdIdle", ffile, tags="verif,dae_stub_ebpf", timeout=1500, outname="out-fwd.json")
+    v.assumptions += ["forwarder cache: fake forwarders behind the dnsForwarderFactory seam hold every exchange until the history answers it; the janitor and the queries are parked at the verif yield points dnsfwd.evict.idle / dnsfwd.acquired; virtual time",
+                      "packet path: real loopback UDP sockets; the point between patching and sending is the trace message sendPkt logs (a logging hook parks the goroutine there)",
                       "one upstream reached as-is; real DoUDP (udpConnPool) / DoTCP (pipelinedConn) forwarders over in-memory sockets and a scripted server; virtual time (testing/synctest)",
                       "data is consumed as soon as it arrives (every goroutine runs to a durable block between steps): races inside one step are not explored",
                       "tcp: a deadline passes only while the leader is alone on the connection"]
